@@ -36,7 +36,7 @@ Proof. exact ConnTimeouts.c12_stream_call_starts. Qed.
 Theorem c12_stream_pending : forall (s : st) (o : nat) (c : cop) (d : Z), getop s o = Some c -> o_status c = SActive -> o_rx c = true -> o_tmo c = Some d -> nth_error (o_items c) (o_taken c) = None -> o_chan c = true -> forall t0 : Z, o_call c = Some t0 -> now s < t0 + d -> exists c' : cop, getop (step s (StreamNext o)) o = Some c' /\ o_call c' = Some t0 /\ o_status c' = SActive /\ scrubq (step s (StreamNext o)) = scrubq s.
 Proof. exact ConnTimeouts.c12_stream_pending. Qed.
 
-Theorem c12_stream_fires : forall (s : st) (o : nat) (c : cop) (d : Z), getop s o = Some c -> o_status c = SActive -> o_rx c = true -> o_tmo c = Some d -> nth_error (o_items c) (o_taken c) = None -> o_chan c = true -> forall t0 : Z, o_call c = Some t0 -> t0 + d <= now s -> is_running s = true -> exists c' : cop, getop (step s (StreamNext o)) o = Some c' /\ o_status c' = SError /\ o_call c' = None /\ scrubq (step s (StreamNext o)) = scrubq s ++ [o_mid c].
+Theorem c12_stream_fires : forall (s : st) (o : nat) (c : cop) (d : Z), getop s o = Some c -> o_status c = SActive -> o_rx c = true -> o_tmo c = Some d -> nth_error (o_items c) (o_taken c) = None -> o_chan c = true -> forall t0 : Z, o_call c = Some t0 -> t0 + d <= now s -> is_running s = true -> fix25 (fx s) = true -> exists c' : cop, getop (step s (StreamNext o)) o = Some c' /\ o_status c' = SError /\ o_call c' = None /\ scrubq (step s (StreamNext o)) = scrubq s ++ [o_mid c].
 Proof. exact ConnTimeouts.c12_stream_fires. Qed.
 
 Print Assumptions c12_pending_before_deadline.
